@@ -140,15 +140,15 @@ func unalias(v reflect.Value) reflect.Value {
 	return c
 }
 
-// containerOperand returns the container an index, slice or delete expression works on, as a value: what is inside an
-// interface, and for a slice, map or string read from a slot (an element, a field) a copy of the header, so that the
-// index expressions evaluated afterwards cannot change which container is meant - as with a container held in a variable.
+// containerOperand returns the container an index, slice or delete expression or a for-in loop works on, as a value: what
+// is inside an interface, and for a slice, map, string or channel read from a slot (an element, a field) a copy of the
+// header, so that what is evaluated afterwards cannot change which container is meant - as with a container held in a variable.
 func containerOperand(v reflect.Value) reflect.Value {
 	if v.Kind() == reflect.Interface && !v.IsNil() {
 		v = v.Elem()
 	}
 	switch v.Kind() {
-	case reflect.Slice, reflect.Map, reflect.String:
+	case reflect.Slice, reflect.Map, reflect.String, reflect.Chan:
 		return unalias(v)
 	}
 	return v
